@@ -163,13 +163,33 @@ namespace
                     return w - std::fabs(x - c0);
             }
         }
+        // What clearance() reports is a separate dimension of "every validity predicate": the samplers may use it to rank or filter
+        // states they have found valid, never to decide validity.
+        //   0 signed distance to the boundary of the valid set (documented meaning)   1 unsigned distance (penetration depth without sign)
+        //   2 validity has an extra constraint clearance knows nothing about            3 not overridden (the base class answers 0)
+        int clearMode = 0;
+        bool extraOk(const ob::State *st) const
+        {
+            if (clearMode != 2)
+                return true;
+            sp->copyToReals(r, st);
+            if (r.empty())
+                return true;
+            double u = std::fabs(r[0] - lo) / std::max(w, 1e-300) * 3.7;
+            return u - std::floor(u) < 0.6;
+        }
+        bool valid(const ob::State *st) const
+        {
+            return signedDist(st) > 0 && extraOk(st);
+        }
         bool isValid(const ob::State *st) const override
         {
-            return signedDist(st) > 0;
+            return valid(st);
         }
         double clearance(const ob::State *st) const override
         {
-            return signedDist(st);
+            double d = signedDist(st);
+            return clearMode == 1 ? std::fabs(d) : clearMode == 3 ? 0.0 : d;
         }
     };
     bool firstRealRange(const Desc &d, double &lo, double &hi)
@@ -392,6 +412,7 @@ void vf::run_case(Src &s, Ctx &c)
         {
             auto m = std::make_shared<ob::MaximizeClearanceValidStateSampler>(si.get());
             m->setNrImproveAttempts((unsigned)s.in(0, 8));
+            pred->clearMode = (int)s.weighted({3, 2, 2, 1});
             vs = m;
             break;
         }
@@ -400,6 +421,7 @@ void vf::run_case(Src &s, Ctx &c)
             auto m = std::make_shared<ob::MinimumClearanceValidStateSampler>(si.get());
             minClear = pred->w * s.real(0, 0.4);
             m->setMinimumObstacleClearance(minClear);
+            pred->clearMode = (int)s.weighted({3, 2, 2, 1});
             vs = m;
         }
     }
@@ -417,6 +439,8 @@ void vf::run_case(Src &s, Ctx &c)
         double dist = useNear ? genDist(extreme) : 0;
         bool ok = useNear ? vs->sampleNear(out, near, dist) : vs->sample(out);
         c.count(std::string("valid-sampler:") + names[which] + (ok ? ":success" : ":gave-up"));
+        if (which >= 4)
+            c.count(vf::fmt("clearance-mode:%d", pred->clearMode));
         if (!ok)
             continue;  // returning false is always acceptable
         ++succ;
@@ -425,12 +449,12 @@ void vf::run_case(Src &s, Ctx &c)
             c.failOrKnown(std::string("C08/valid-sampler-bounds/") + names[which] + "/" + famName(d),
                           vf::fmt("%s: %s valid-state sampler returned success with an out-of-bounds state %s (%s)", d.name().c_str(), names[which],
                                   show(d, out).c_str(), boundsViolation(d, out, 0).c_str()));
-        VCHECK(c, pred->signedDist(out) > 0, std::string("C08/valid-sampler-invalid/") + names[which] + "/" + famName(d),
-               "%s: %s valid-state sampler returned success with an invalid state %s (predicate mode %d)", d.name().c_str(), names[which],
-               show(d, out).c_str(), pred->mode);
+        VCHECK(c, pred->valid(out), std::string("C08/valid-sampler-invalid/") + names[which] + "/" + famName(d),
+               "%s: %s valid-state sampler returned success with an invalid state %s (predicate mode %d, clearance mode %d)", d.name().c_str(), names[which],
+               show(d, out).c_str(), pred->mode, pred->clearMode);
         if (which == 5)
-            VCHECK(c, pred->signedDist(out) >= minClear, "C08/min-clearance", "%s: min-clearance sampler returned clearance %.6g < configured %.6g",
-                   d.name().c_str(), pred->signedDist(out), minClear);
+            VCHECK(c, pred->clearance(out) >= minClear, "C08/min-clearance", "%s: min-clearance sampler returned clearance %.6g < configured %.6g",
+                   d.name().c_str(), pred->clearance(out), minClear);
     }
     c.nontrivial = succ > 0 && pred->mode >= 2;
 }
